@@ -94,6 +94,9 @@ def pipeline(ctx, module, jobs, process, par=6, timeout=900):
     def one(job):
         process(tlc_cases(ctx, module, [job], timeout=timeout))
         return None
+    cap = os.environ.get("VERIF_TLC_WORKERS")        # each TLC process runs with one worker: the cap is on concurrent processes
+    if cap and cap.isdigit():
+        par = min(par, max(1, int(cap)))
     vlib.parallel_map(one, jobs, nproc=max(1, min(par, len(jobs))))
 
 
